@@ -423,6 +423,28 @@ package ps
 //@   requires [proof]  sigPoK.hε != nil && sigPoK.hPrimeε != nil && sigPoK.ν != nil && sigPoK.κ != nil &&
 //@                     sigPoK.ψ.y != nil && sigPoK.ψ.Γ != nil && sigPoK.ψ.Φ != nil && allZr(sigPoK.ψ.x)
 //@   modifies nothing
+//@   // acceptance implies the pairing equation e(kappa, h^eps) * e(g2inv, h'^eps + nu) = 1 and a non-zero h^eps (C08, C09)
+//@   ensures [pairing] result == nil ==> isunity(fexp(pair2(old(val(sigPoK.κ)), old(val(sigPoK.hε)), old(val(pp.g2Inverse)), g1add(old(val(sigPoK.hPrimeε)), old(val(sigPoK.ν))))))
+//@
+//@ func proveProofOfKnowledgeOfSignatureIsCorrectlyFormed
+//@   props C08
+//@   requires c != nil && allZr(m) && δ != nil && ν != nil && hε != nil && κ != nil && g2 != nil && X != nil && allG2(Y) && len(m) <= len(Y)
+//@   modifies nothing
+//@   loop 0: invariant 0 <= i && len(γ) == n && n == len(m) && μ != nil && fresh(γ) && forall k int :: { γ[k] } 0 <= k && k < i ==> γ[k] != nil
+//@   loop 1: invariant 0 <= i && len(γ) == n && n == len(m) && μ != nil && Γ != nil && fresh(Γ) && forall k int :: { γ[k] } 0 <= k && k < n ==> γ[k] != nil
+//@   loop 2: invariant 0 <= i && len(γ) == n && n == len(m) && len(x) == len(m) && μ != nil && e != nil && fresh(x) && fresh(γ) && !sameArray(x, γ) && forall k int :: { γ[k] } 0 <= k && k < n ==> γ[k] != nil
+//@
+//@ // the randomised signature inside a proof of knowledge: kappa = X + sum msg[i]*Y[i] + delta*g2, h^eps, nu = delta*h^eps, h'^eps
+//@ func PoKofSig
+//@   props C08
+//@   requires paramsOKp(pp) && pkOK(pk) && h != nil && hPrime != nil && allZr(msg) && len(pk.Y) == len(msg)
+//@   modifies nothing
+//@   at return:
+//@     assert [randomised] val(result.κ) == g2add(sumG2(vals(pk.Y), vals(msg), val(pk.X), len(pk.Y)), g2mul(val(pp.g2), val(δ))) &&
+//@                         val(result.hε) == g1mul(val(h), val(ε)) && val(result.ν) == g1mul(val(result.hε), val(δ)) && val(result.hPrimeε) == g1mul(val(hPrime), val(ε))
+//@   loop 0: invariant 0 <= i && i <= len(pk.Y) && κ != nil && fresh(κ) && ε != nil && δ != nil
+//@   loop 0: invariant [keys-unchanged] forall m int :: { pk.Y[m] } 0 <= m && m < len(pk.Y) ==> val(pk.Y[m]) == old(val(pk.Y[m]))
+//@   loop 0: invariant [key-side] val(κ) == sumG2(old(vals(pk.Y)), old(vals(msg)), old(val(pk.X)), i)
 //@
 //@ func (*PoKofSignaturePoCorrectForm).Verify
 //@   props C09 C10
